@@ -23,12 +23,11 @@ Qed.
 (* The count handed on with the Disconnected event (and used by a later <resume/>)
    is the starting count plus all stanzas processed: nothing else was counted. *)
 Theorem C09_count_at_loss : forall items inb nw wf,
-  ends_by_close nw wf items = false ->
   In (AEvDisconnected (inb + count_stanzas (processed nw wf items))) (crecv inb nw wf items)
   /\ count_act is_disc (crecv inb nw wf items) = 1%nat.
 Proof.
-  intros items inb nw wf Hc. pose proof (crecv_loss items inb nw wf) as H. cbn zeta in H.
-  destruct H as (_ & _ & Hd & _ & Hin). rewrite Hc in Hd. split; [apply Hin; exact Hc|exact Hd].
+  intros items inb nw wf. pose proof (crecv_loss items inb nw wf) as H. cbn zeta in H.
+  destruct H as (_ & _ & Hd & _ & Hin). split; assumption.
 Qed.
 
 Example C09_example :
